@@ -6,7 +6,7 @@
    (update, update_from_dict, update_from_options, update_from_file, profiles = ..., master_section = ...,
    fallback_config = ..., update_vars) applied to Configuration(name), in the specification model. *)
 From Coq Require Import ZArith List Bool String Ascii Lia.
-From Verif Require Import Gen.C19_BoolStates Model.C19_Config Proofs.C19_Config Proofs.C19_Text Proofs.C19_Replace.
+From Verif Require Import Gen.C19_BoolStates Model.C19_Config Proofs.C19_Config Proofs.C19_Text Proofs.C19_Replace Proofs.C19_Options.
 Import ListNotations.
 Open Scope string_scope.
 
@@ -129,6 +129,31 @@ Theorem replace_mixed_texts : forall vars segs,
 Proof. exact replace_mixed. Qed.
 Print Assumptions replace_mixed_texts.
 
+(* update_from_options: how one command-line option is taken apart (names without ":" and "="; the value is anything
+   after the first "="):  --section:key=value,  --name:section:key=value (only for this configuration's name),
+   --key=value (master section, MissingSectionError without one); everything else is ignored.
+   (The order of application - the last option for a key wins - is the general update semantics of `run`.) *)
+Theorem option_forms :
+  (forall c sec key val p src, sec <> EmptyString -> plain sec -> plain key ->
+     option_upd c ("--" ++ sec ++ ":" ++ key ++ "=" ++ val) p src =
+     Some (Ok (Upd sec key val p (src ++ " (" ++ ("--" ++ sec ++ ":" ++ key ++ "=" ++ val) ++ ")") []))) /\
+  (forall c name sec key val p src, sec <> EmptyString -> name <> EmptyString -> plain name -> plain sec -> plain key ->
+     option_upd c ("--" ++ name ++ ":" ++ sec ++ ":" ++ key ++ "=" ++ val) p src =
+     if String.eqb name (c_name c)
+     then Some (Ok (Upd sec key val p (src ++ " (" ++ ("--" ++ name ++ ":" ++ sec ++ ":" ++ key ++ "=" ++ val) ++ ")") []))
+     else None) /\
+  (forall c key val p src, plain key ->
+     option_upd c ("--" ++ key ++ "=" ++ val) p src =
+     match master_section c with
+     | Ok (m, _) => Some (Ok (Upd m key val p (src ++ " (" ++ ("--" ++ key ++ "=" ++ val) ++ ")") []))
+     | Err e => Some (Err e)
+     end) /\
+  (forall c opt p src, prefix_b "--" opt = false \/ has_char eqsign opt = false -> option_upd c opt p src = None).
+Proof.
+  split; [exact option_section_key|]. split; [exact option_named|]. split; [exact option_master|exact option_ignored].
+Qed.
+Print Assumptions option_forms.
+
 (* greedy wrapping: a text `P ++ " w1 w2 ... wn"` whose part P fits on the first line is wrapped by the model of
    textwrap.fill (break_long_words=False, break_on_hyphens=False, hanging indent 33) into a first line P followed by
    some of the words and lines of 33 blanks followed by a non-empty group of words; the groups are the words in order *)
@@ -162,7 +187,10 @@ Print Assumptions fill_fits_unchanged.
        the key `key:meta` (that the option names key / key:meta of a section are then pairwise different is proved,
        not assumed).
    Outside: values that do not fit and contain two blanks in a row or other whitespace (textwrap drops the blanks
-   at a line break), words starting with "#" or ";" in a wrapped value, keys longer than the line. *)
+   at a line break), keys longer than the line, and words starting with "#" or ";" in a wrapped value.  The last
+   exclusion is exactly the class of the open finding c19_comment_continuation_lost: for such values the specification
+   (whose reader keeps continuation lines) still reads the value back, the implementation does not
+   (c19_comment_continuation_refuted); the theorem is stated for the class on which both agree. *)
 Theorem text_roundtrip : forall (cs : bool) (w : nat) (c : config),
   view_ok cs w (c_view c) ->
   answer all_off c (QReadBack w cs) = AContent (Ok (view_content (c_view c))).
@@ -233,6 +261,14 @@ Theorem c19_lead_refuted :
   AContent (Ok [("sa", [("k1", " a-word-that-is-longer-than-the-rest-of-the-line", [])])]).
 Proof. exact lead_witness. Qed.
 Print Assumptions c19_lead_refuted.
+
+(* ConfigParser drops a continuation line that starts with # or ; : the wrapped value loses it.  The specification
+   reader keeps continuation lines; this is the OPEN finding c19_comment_continuation_lost. *)
+Theorem c19_comment_continuation_refuted :
+  answer all_off w_comment_cfg (QReadBack 60 true) = AContent (Ok (view_content (c_view w_comment_cfg))) /\
+  answer q_only_comment w_comment_cfg (QReadBack 60 true) = AContent (Ok [("sa", [("k1", "aaaaaaaaaaaaaaaaaaaaaaaa", [])])]).
+Proof. exact comment_witness. Qed.
+Print Assumptions c19_comment_continuation_refuted.
 
 (* ---- non-vacuity *)
 
